@@ -158,6 +158,12 @@ def check(ctx):
     from . import c05
     rep.rule('B1', 'C05-B1 re-evaluated: every matrix cell is the unmodified kernel value, a copy of a cell, or the zero diagonal')
     c05.check_stores(ctx)
+    # "every value being the true signature distance ... for every way of supplying either side": both operands of every
+    # comparison in dist_cmd must have known-equal k-mer parameters on every option path (C14-P1/P2 on dist_cmd, re-evaluated)
+    from . import c14
+    rep.rule('P1', 'C14-P1 re-evaluated on dist_cmd: sink operands have known-equal k-mer parameters on every abstract path')
+    rep.rule('P2', 'C14-P2 re-evaluated on dist_cmd'); rep.rule('P4', 'C14-P4 re-evaluated on dist_cmd')
+    c14.check_commands(ctx, only={D})
     wo = [s for s in stmts_in(fw.node.body) if isinstance(s, ast.With)]
     okw = len(wo) == 1 and isinstance(wo[0].items[0].context_expr, ast.Call) and u(wo[0].items[0].context_expr.func) == 'maybe_open' and [u(a) for a in wo[0].items[0].context_expr.args[:2]] == [p[0], "'w'"] \
         and u(get_kw(wo[0].items[0].context_expr, 'newline')) == "''"
@@ -183,5 +189,6 @@ VARIANTS = [
     V('manual join instead of csv.writer', 'B', _C, "writer.writerow([str(row_id), *values_str])", "fobj.write(','.join([str(row_id), *values_str]) + '\\n')", 'G4'),
     V('empty query short-cut writes 1 into the cells (seeded C16a)', 'B', 'src/gambit/metric.py', "\telse:\n\t\tfor i, ref in enumerate(refs):\n\t\t\tref = _cast_sigs_array(ref)",
       "\telif len(query) == 0:\n\t\tout[:] = 1\n\n\telse:\n\t\tfor i, ref in enumerate(refs):\n\t\t\tref = _cast_sigs_array(ref)", 'B1'),
+    V('default parameters chosen by the option, not by the loaded signatures (seeded C16b)', 'B', _D, "\t\telif ref_sigs is not None:\n\t\t\tkspec = ref_sigs.kmerspec", "\t\telif rs is not None:\n\t\t\tkspec = ref_sigs.kmerspec", 'P1'),
     V('E: keyword arguments to the writer', 'E', _D, "dump_dmat_csv(output, dmat, query_ids, ref_ids)", "dump_dmat_csv(output, dmat, row_ids=query_ids, col_ids=ref_ids)"),
 ]
